@@ -28,7 +28,10 @@ Oracles (model-free): accept <=> an independent statement of the rule (see `rule
 every single deviation is rejected; unflushed tracebacks make check_for_errors raise UnflushedTracebacks; the default
 logger after a decorated test is the object it was before, and inside the body it is the MemoryLogger handed to the test.
 """
+import dataclasses
+import enum
 import json
+import uuid
 import unittest
 
 from ..framework import lean_driver
@@ -89,6 +92,16 @@ class Registry:
             self.ids[k] = len(self.ids) + 1
             self.keep.append(o)
         return self.ids[k]
+
+
+class _Colour(enum.Enum):
+    RED = 1
+
+
+@dataclasses.dataclass
+class _Point:
+    x: int
+    y: int
 
 
 def encodable(v):
@@ -721,7 +734,10 @@ def gen_tree(rng, depth=0):
         return {"captured": gen_tree(rng, depth + 1)}
     if r < 0.68:
         # the body logs something check_for_errors has to report, then goes on (and may fail, raise, or be skipped)
-        return {"logs_bad": gen_tree(rng, depth + 1), "bad_kind": rng.choice(["invalid", "traceback", "not-json", "missing"])}
+        # ... or something the library writes without complaint although a plain `json.dumps` would not (kinds "good-*"):
+        # check_for_errors must then stay silent
+        return {"logs_bad": gen_tree(rng, depth + 1), "bad_kind": rng.choice(["invalid", "traceback", "not-json", "missing", "not-json-bigint",
+                                                                              "not-json-intkey", "good-uuid", "good-enum", "good-dataclass"])}
     if r < 0.8:
         # the body (or the code under test) installs a logger of its own and never puts the old one back
         return {"swaps": gen_tree(rng, depth + 1)}
@@ -733,6 +749,8 @@ def model_tree(t):
     if "body" in t:
         return {"body": "skip" if t["body"] == "skip-method" else t["body"]}
     if "logs_bad" in t:
+        if t.get("bad_kind", "").startswith("good-"):
+            return model_tree(t["logs_bad"])
         return {"logs_bad": model_tree(t["logs_bad"])}
     if "swaps" in t:
         return {"swaps": model_tree(t["swaps"])}
@@ -807,6 +825,19 @@ def run_tree(tree, log_invalid):
             kind = t.get("bad_kind", "invalid")
 
             def logs_bad_entry(self, **kw):
+                if kind.startswith("good-"):
+                    # values Eliot's encoder (orjson) takes natively: "JSON-encodable" is what the library can write
+                    v = {"good-uuid": uuid.UUID(int=5), "good-enum": _Colour.RED, "good-dataclass": _Point(1, 2)}[kind]
+                    if encodable({"payload": v}):
+                        log_message("untyped", payload=v)
+                    return then(self, **kw)
+                if kind in ("not-json-bigint", "not-json-intkey"):
+                    # ... and values a plain `json.dumps` takes but the library cannot write
+                    v = 2 ** 70 if kind == "not-json-bigint" else {1: "one"}
+                    if not encodable({"payload": v}):
+                        bad_targets.append(_output._DEFAULT_LOGGER)
+                        log_message("untyped", payload=v)
+                    return then(self, **kw)
                 bad_targets.append(_output._DEFAULT_LOGGER)
                 if kind == "invalid":
                     BAD.log(n="not an int")
@@ -956,7 +987,7 @@ def run(ctx):
             metas.append(("validate", dict(tag="matrix", m=m2, serobj=serobj, spec=spec, cbs=cbs)))
     trees = [gen_tree(rng) for _ in range(ctx.budget(60, 2500))]
     # on every seed: a decorated test logs each kind of bad entry and is then skipped (either spelling), fails, raises, passes
-    for kind_ in ("invalid", "missing", "not-json", "traceback"):
+    for kind_ in ("invalid", "missing", "not-json", "traceback", "not-json-bigint", "not-json-intkey", "good-uuid", "good-enum", "good-dataclass"):
         for o in ("skip", "skip-method", "fail", "error", "pass"):
             trees.append({"captured": {"logs_bad": {"body": o}, "bad_kind": kind_}})
     trees.append({"captured": {"captured": {"logs_bad": {"inner": [{"captured": {"logs_bad": {"body": "skip"}, "bad_kind": "traceback"}},
